@@ -226,6 +226,38 @@ ApplyFilters(X, ps, k, B) ==
 EvalUnion(X, ps, k, view, active) ==
   IF k = 0 THEN EmptyBag ELSE BagUnion(EvalUnion(X, ps, k - 1, view, active), Eval(X, ps[k], view, active))
 
+\* "sideways" relaxation (classification only): the engine's bind join evaluates the right-hand pattern once per
+\* left solution with that solution's bindings substituted, so a FILTER inside a nested group / UNION branch / GRAPH
+\* child sees variables bound outside it.  EvalS threads the incoming bag through every operator; a subquery keeps
+\* its own scope.  With the unit bag as input it differs from Eval only in that respect.
+RECURSIVE EvalS(_, _, _, _, _), EvalGroupS(_, _, _, _, _, _), EvalUnionS(_, _, _, _, _, _)
+EvalS(X, p, view, active, inc) ==
+  CASE p.t = "unit"   -> inc
+    [] p.t = "bgp"    -> BagJoin(inc, EvalBgp(p.tps, Len(p.tps), ActiveTriples(X, view, active)))
+    [] p.t = "join"   -> ApplyFilters(X, p.ps, Len(p.ps), EvalGroupS(X, p.ps, Len(p.ps), view, active, inc))
+    [] p.t = "union"  -> EvalUnionS(X, p.ps, Len(p.ps), view, active, inc)
+    [] p.t = "graph"  ->
+         IF IsVar(p.name)
+           THEN LET gs == {g \in view.named : g \in X.graphs}
+                    One(g) == EvalS(X, p.p, view, g, BagJoin(inc, [m \in {[x \in {p.name[2]} |-> g]} |-> 1]))
+                    RECURSIVE Acc(_)
+                    Acc(S) == IF S = {} THEN EmptyBag ELSE LET g == CHOOSE x \in S : TRUE IN BagUnion(One(g), Acc(S \ {g}))
+                IN  Acc(gs)
+           ELSE IF p.name[2] \in view.named /\ p.name[2] \in X.graphs THEN EvalS(X, p.p, view, p.name[2], inc) ELSE EmptyBag
+    [] p.t = "filter" -> BagFilter(inc, LAMBDA m : EvalExpr(X, p.e, m) = "T")
+    [] p.t = "bind"   -> Extend(X, inc, p.args, p.v)
+    [] p.t = "values" -> BagJoin(inc, ValuesBag(p.vars, p.rows))
+    [] p.t = "sub"    -> BagJoin(inc, SubSolutions(X, p.q, view, active))
+EvalGroupS(X, ps, k, view, active, inc) ==
+  IF k = 0 THEN inc
+  ELSE LET before == EvalGroupS(X, ps, k - 1, view, active, inc)
+           e == ps[k]
+       IN  CASE e.t = "filter" -> before
+             [] e.t = "bind"   -> Extend(X, before, e.args, e.v)
+             [] OTHER          -> EvalS(X, e, view, active, before)
+EvalUnionS(X, ps, k, view, active, inc) ==
+  IF k = 0 THEN EmptyBag ELSE BagUnion(EvalUnionS(X, ps, k - 1, view, active, inc), EvalS(X, ps[k], view, active, inc))
+
 ---------------------------------------------------------------------------
 \* SELECT: grouping/aggregation, projection, DISTINCT.  ORDER BY / LIMIT make the answer a set of
 \* admissible sequences, handled by Accept below.  Full(q) is the bag of solutions before LIMIT,
@@ -237,7 +269,7 @@ Groups(q, B) == {GroupKey(q, m) : m \in DOMAIN B}
 GroupBag(q, B, key) == BagFilter(B, LAMBDA m : GroupKey(q, m) = key)
 PlainCols(q) == IF q.star THEN PVars(q.p) ELSE {q.proj[i].as : i \in {j \in 1..Len(q.proj) : q.proj[j].k = "VAR"}}
 
-Solutions(X, q, view, active) == Eval(X, q.p, view, active)
+Solutions(X, q, view, active) == IF "sideways" \in X.lenient THEN EvalS(X, q.p, view, active, UnitBag) ELSE Eval(X, q.p, view, active)
 
 \* for a subquery the result must be a definite bag: aggregates are materialised with exact
 \* values, so a subquery aggregate is representable only if its value is a lexical in X.num's
@@ -303,6 +335,11 @@ AllCutsDefinite(X, p, view, active) ==
 ---------------------------------------------------------------------------
 \* Acceptance of an observed row sequence for a top-level SELECT.
 \* cols: sequence of output column names; rows: sequence of sequences of lexicals ("" = unbound).
+\* an observed numeric lexical is read as the canonical lexical of its value ("-0" and "0" are the same number)
+CanonVal(X, v) == IF v \in DOMAIN X.num /\ KindOf(X, v) = "num"
+                    THEN LET c == {w \in X.canon : X.num[w] = X.num[v]} IN IF c = {} THEN v ELSE CHOOSE w \in c : TRUE
+                    ELSE v
+RowMapOfX(X, cols, r) == [x \in {cols[i] : i \in {j \in 1..Len(cols) : r[j] # ""}} |-> CanonVal(X, r[CHOOSE i \in 1..Len(cols) : cols[i] = x])]
 RowMapOf(cols, r) == [x \in {cols[i] : i \in {j \in 1..Len(cols) : r[j] # ""}} |-> r[CHOOSE i \in 1..Len(cols) : cols[i] = x]]
 SeqBag(sq) == LET S == {sq[i] : i \in 1..Len(sq)} IN [m \in S |-> Cardinality({i \in 1..Len(sq) : sq[i] = m})]
 SubBag(A, B) == \A m \in DOMAIN A : Cnt(A, m) <= Cnt(B, m)
@@ -315,7 +352,7 @@ FullPlain(X, q) ==
   IN  IF q.distinct THEN Distinct(P) ELSE P
 
 AcceptPlain(X, q, cols, rows) ==
-  LET obs  == [i \in 1..Len(rows) |-> RowMapOf(cols, rows[i])]
+  LET obs  == [i \in 1..Len(rows) |-> RowMapOfX(X, cols, rows[i])]
       full == FullPlain(X, q)
       n    == BagSize(full)
       want == IF q.limit >= 0 /\ q.limit < n THEN q.limit ELSE n
